@@ -311,6 +311,8 @@ def run(ctx: common.Ctx):
         else:
             ctx.coverage["unexplained_build_errors"] = rest
     batch_data_sensitivity(ctx)
+    from .c04 import batch_spellings
+    batch_spellings(ctx)       # equal nodes (arguments spelled differently) must get one key
     n_graphs, n_mut = (1500, 6) if ctx.thorough else (150, 3)
     pickles, keys, node_keys = correspondence(ctx, t, ctx.seed, n_graphs, n_mut)
     n_x = 400 if ctx.thorough else 60
